@@ -20,6 +20,7 @@ theorem (`C07.legacy_open_first_truncates`).
 No Mathlib.
 -/
 import OdmlModel.Py.Str
+import OdmlModel.Py.Uuid
 import OdmlModel.Generated.MiscTables
 import OdmlModel.Generated.ValidationTables
 
@@ -321,6 +322,32 @@ def ruleRank (r : String) : Option Rank :=
 /-- The ranks of a list of issues given by the rule each comes from (an undecided rule counts as
     an error: nothing is promised for it). -/
 def ranksOf (rules : List String) : List Rank := rules.map (fun r => (ruleRank r).getD .error)
+
+/-! ### The rule behind "duplicate ids" (`odml/validation.py`, `document_unique_ids` →
+`section_unique_ids` → `property_unique_ids`) and the ids it gets to see
+
+The rule walks the document with one dictionary `id_map` (the Document's id is in it from the
+start; of a Section first the ids of its Properties, then its own, then its sub-Sections) and
+yields one issue - rank error, the default of `ValidationError` - for every object whose id *text*
+is a key already. `ids` below is the list of id texts in that order, the Document's first.
+The texts are what the public doors stored: `Py.Uuid.ctorId` (constructor argument `oid`, also the
+readers) and `Py.Uuid.newId` (`new_id`), both `str(uuid.UUID(oid))`. -/
+
+/-- The ids the rule reports, given the keys `seen` of `id_map`. -/
+def dupIds (seen : List (List Char)) : List (List Char) → List (List Char)
+  | [] => []
+  | x :: xs => if seen.contains x then x :: dupIds seen xs else dupIds (x :: seen) xs
+
+/-- `document_unique_ids(doc)`: the ids of the issues, in the order they are yielded. -/
+def uniqueIdIssues (ids : List (List Char)) : List (List Char) := dupIds [] ids
+
+/-- Their ranks. -/
+def idRanks (ids : List (List Char)) : List Rank := (uniqueIdIssues ids).map (fun _ => Rank.error)
+
+/-- The text one of the public doors leaves as the id of an object when it is handed `s`:
+    the constructor argument (`fresh` are the bits of the `uuid4()` it falls back to) or `new_id`. -/
+def StoredFrom (s : List Char) (x : List Char) : Prop :=
+  (∃ fresh, x = Py.Uuid.ctorId (some s) fresh) ∨ (∃ fresh, Py.Uuid.newId (some s) fresh = some x)
 
 /-! ### Histories of saves -/
 
